@@ -261,3 +261,164 @@ def _find_tail_subs(e, out):
         for x in e[1:]:
             if isinstance(x, tuple) and x and isinstance(x[0], str):
                 _find_tail_subs(x, out)
+
+
+# ---------------------------------------------------------------------------------------------
+# R-CONV-UNWRAP (C06): unwrap of a value-dependent conversion needs the value to be in the convertible range
+
+CHAR_TESTS = {"to_digit": ("is_ascii_hexdigit", "is_ascii_digit", "is_digit")}
+
+
+def rule_conv_unwrap(cx, tier):
+    r = RuleResult("R-CONV-UNWRAP", "`unwrap`/`expect` on a conversion whose success depends on the value -- "
+                                    "`char::from_u32(x)` (fails for surrogates and beyond 0x10FFFF), `c.to_digit(r)`, "
+                                    "`T::try_from(x)` -- is dominated by a test that puts the value in the convertible "
+                                    "range: an upper bound below 0xD800 for from_u32, the matching `is_ascii_hexdigit`/"
+                                    "`is_digit` test for to_digit, a bound within T for try_from; in the crates that process "
+                                    "untrusted text (lexer, parser, format, bytecode, runtime)")
+    from .narrow import FnBounds, TMAX, _short, edge_side
+    from ..mir import op_base, op_place
+    F = cx.F
+    n = 0
+    for fn in F.fns.values():
+        if fn.derived or fn.crate.uname not in ("koto_lexer", "koto_parser", "koto_format", "koto_bytecode", "koto_runtime",
+                                                "koto", "koto_serde", "koto_json", "koto_yaml", "koto_toml"):
+            continue
+        du = cx.du(fn)
+        fb = None
+        for c in fn.calls():
+            if not c.is_("Option::unwrap", "Option::expect", "Result::unwrap", "Result::expect") or not c.args:
+                continue
+            l = op_base(c.args[0])
+            rr = du.root(l) if l is not None else None
+            if rr is not None and rr[0] == "field":
+                rr = rr[1]
+            if rr is None or rr[0] != "call" or not rr[1].args:
+                continue
+            conv = rr[1]
+            last = (conv.pretty or conv.short or "").rsplit("::", 1)[-1]
+            if last not in ("from_u32", "to_digit", "try_from", "try_into", "from_digit"):
+                continue
+            n += 1
+            r.instances += 1
+            r.nontrivial += 1
+            fb = fb or FnBounds(cx, fn)
+            e = fb.sym.expr(conv.args[0])
+            cfg = fb.cfg
+            ok, why = False, ""
+            if last == "from_u32":
+                b = fb.at(c.bb)
+                m = b.mag(e)
+                ok, why = m < 0xD800, f"value <= {m}"
+            elif last in ("to_digit", "from_digit"):
+                subj = _short(e)
+
+                def ident(op):
+                    """identity of the tested value: the producing call (not its name: two `chars.next()` are two values)"""
+                    ll = op_base(op)
+                    if ll is None:
+                        return None
+                    r0 = du.root(ll, through_calls=("Clone::clone", "Option::cloned", "Option::copied", "Deref::deref"))
+                    flds = ()
+                    if r0[0] == "field":
+                        flds = tuple(r0[2])
+                        r0 = r0[1]
+                    if r0[0] == "call":
+                        return ("call", r0[1].bb, flds)
+                    return (r0[0], r0[1] if r0[0] in ("arg", "multi") else None, flds)
+                sid = ident(conv.args[0])
+                for t in fn.calls():
+                    if (t.pretty or t.short or "").rsplit("::", 1)[-1] in CHAR_TESTS["to_digit"] and t.args and not t.dest[1]:
+                        if sid is not None and ident(t.args[0]) == sid and (t.bb == c.bb or cfg.dominates(t.bb, c.bb)) and \
+                                edge_side(cx, fn, cfg, t.bb, t.dest[0], c.bb) == "true":
+                            ok, why = True, (t.pretty or t.short).rsplit("::", 1)[-1] + " tested"
+                if not ok:
+                    why = f"no digit test of {subj} on the way here"
+            else:
+                dst = fn.local_tstr(conv.dest[0])
+                import re
+                m2 = re.search(r"Result<(u8|i8|u16|i16|u32|i32)\b", dst)
+                b = fb.at(c.bb)
+                m = b.mag(e)
+                lim = TMAX.get(m2.group(1), None) if m2 else None
+                if lim is None and m2:
+                    lim = {"u32": 2 ** 32 - 1, "i32": 2 ** 31 - 1}[m2.group(1)]
+                ok = lim is not None and m <= lim
+                why = f"value <= {m}" if ok else f"no bound within {m2.group(1) if m2 else 'the target type'}"
+            r.sample({"fn": fn.qual, "line": c.line, "conversion": last, "operand": _short(e), "ok": ok, "why": why})
+            if not ok:
+                r.add(Finding("R-CONV-UNWRAP", fn.qual, f"{last}:{_short(e)}",
+                              f"`{last}({_short(e)})` is unwrapped, but {why}: an input that makes the conversion fail "
+                              f"(e.g. a surrogate code point for char::from_u32) panics instead of producing an error",
+                              fn.file, c.line))
+    r.analysed = {"unwrapped_value_dependent_conversions": n}
+    r.floor("unwrapped value-dependent conversions", n, 3)
+    return r
+
+
+# ---------------------------------------------------------------------------------------------
+# R-WIDTH-UNITS (C15): a format spec's width / precision is measured in grapheme clusters, not bytes
+
+def rule_width_units(cx, tier):
+    r = RuleResult("R-WIDTH-UNITS", "`min_width` and `precision` of a string format spec count grapheme clusters: wherever the "
+                                    "runtime compares them with, or subtracts them from, the size of rendered text, that size "
+                                    "is a grapheme count (`graphemes(..).count()`), never a byte length (`len()`) -- with a "
+                                    "byte length a value containing multi-byte characters is not padded / is cut short")
+    from .narrow import FnBounds, Sym, guards, leaves_of, _phi_names, _short
+    from . import arith
+    from ..facts import loc_line
+    F = cx.F
+    fields = set()
+    for a in F.adts.values() if isinstance(F.adts, dict) else F.adts:
+        name = a.get("name", "") if isinstance(a, dict) else ""
+        if name.endswith("StringFormatOptions"):
+            for v in a.get("variants", []):
+                for f in v.get("fields", []):
+                    fields.add(f[0] if isinstance(f, (list, tuple)) else f.get("name"))
+    require({"min_width", "precision"} <= fields, "R-WIDTH-UNITS: StringFormatOptions no longer has min_width / precision "
+                                                  f"fields (found {sorted(x for x in fields if x)})")
+
+    def is_spec(x):
+        return "min_width" in x or "precision" in x
+    n = 0
+    for fn in F.fns.values():
+        if fn.derived or fn.crate.uname != "koto_runtime":
+            continue
+        sym = None
+        pairs = []
+        sym = Sym(cx, fn)
+        for (gb, dest, opn, le, re_, cty) in guards(cx, fn, sym):
+            pairs.append((gb, "compared with", le, re_, None))
+        for bb, t in arith._asserts(fn):
+            if t[1] in ("Overflow:Sub", "Overflow:Add") and len(t[5]) == 2:
+                pairs.append((bb, "combined with", sym.expr(t[5][0]), sym.expr(t[5][1]), loc_line(t[6])))
+        for c in fn.calls():
+            if (c.pretty or c.short or "").rsplit("::", 1)[-1] in ("saturating_sub", "checked_sub", "min", "max") and len(c.args) >= 2:
+                # a value that only becomes a capacity hint has no unit to get wrong
+                d0 = c.dest[0]
+                hint = any((c2.pretty or c2.short or "").rsplit("::", 1)[-1] in ("with_capacity", "reserve", "reserve_exact")
+                           and any(op_base(a) == d0 for a in c2.args) for c2 in fn.calls())
+                if hint:
+                    continue
+                pairs.append((c.bb, "combined with", sym.expr(c.args[0]), sym.expr(c.args[1]), c.line))
+        for bb, how, a, b, line in pairs:
+            la, lb = leaves_of(a) | _phi_names(a), leaves_of(b) | _phi_names(b)
+            for spec, other, oe in ((la, lb, b), (lb, la, a)):
+                if not any(is_spec(x) for x in spec) or any(is_spec(x) for x in other):
+                    continue
+                n += 1
+                r.instances += 1
+                r.nontrivial += 1
+                bytes_ = sorted(x for x in other if x.startswith("len("))
+                from ..mir import line_of
+                ln = line if line is not None else line_of(fn, bb)
+                r.sample({"fn": fn.qual, "line": ln, "spec": sorted(x for x in spec if is_spec(x)), "other": _short(oe)[:60],
+                          "byte_length": bool(bytes_)})
+                if bytes_:
+                    r.add(Finding("R-WIDTH-UNITS", fn.qual, "bytes:" + ",".join(bytes_),
+                                  f"a format spec's width/precision is {how} {', '.join(bytes_)}, a byte length: for text "
+                                  f"with multi-byte characters the field is not padded to (or is cut below) the requested "
+                                  f"number of characters", fn.file, ln))
+    r.analysed = {"width_or_precision_uses": n}
+    r.floor("uses of min_width / precision in size computations", n, 1)
+    return r
